@@ -59,8 +59,13 @@ def emit_scad(L, abs_):
         decl = L['assocs'][l['cls'] - 1]
         k += 1
         # the format lists fields and objects crosswise: the object in targetObject belongs to the field sourceProperty
-        out.append('  <associations description="" sourceObject="%d" targetObject="%d" id="%d" sourceProperty=%s targetProperty=%s/>'
-                   % (l['r'], l['l'], 900000 + k, quoteattr(decl['lf']), quoteattr(decl['rf'])))
+        # ... so a link can be written from either end: every second one is written the other way round
+        if k % 2:
+            out.append('  <associations description="" sourceObject="%d" targetObject="%d" id="%d" sourceProperty=%s targetProperty=%s/>'
+                       % (l['r'], l['l'], 900000 + k, quoteattr(decl['lf']), quoteattr(decl['rf'])))
+        else:
+            out.append('  <associations description="" sourceObject="%d" targetObject="%d" id="%d" sourceProperty=%s targetProperty=%s/>'
+                       % (l['l'], l['r'], 900000 + k, quoteattr(decl['rf']), quoteattr(decl['lf'])))
     for e in abs_['entry']:
         k += 1
         out.append('  <associations description="" sourceObject="%d" targetObject="%d" id="%d" sourceProperty="firstSteps" targetProperty=%s/>'
